@@ -30,6 +30,16 @@ def gen_invocation(rng, i):
             p = "".join(rng.choice(alpha) for _ in range(rng.randint(1, 3)))
         if p and p not in pats:
             pats.append(p)
+    runs = None
+    if rng.random() < 0.06:
+        # long self-overlapping patterns: a byte can be covered by hundreds of occurrences
+        c = rng.choice(alpha)
+        n = rng.choice([127, 128, 129, 130, 200, 256, 257, 300])
+        if rng.random() < 0.5:
+            pats = [c * n] + [p for p in pats if p != c * n][:2]
+        else:
+            pats = [c * k for k in range(1, min(n, 140) + 1)]
+        runs = (c, n)
     ninputs = rng.choice([0, 0, 1, 1, 2])  # 0: stdin
     inputs = []
     for k in range(max(1, ninputs)):
@@ -43,6 +53,16 @@ def gen_invocation(rng, i):
                 lines.append(s)
             else:
                 lines.append("".join(rng.choice(alpha + ["q"]) for _ in range(rng.randint(0, 12))))
+        if runs:
+            c, n = runs
+            lines.append(c * rng.choice([n, 2 * n - 1, 2 * n + 3]))
+            lines.append(rng.choice(alpha + ["q"]) + c * (n + rng.randint(0, 5)) + "q" + c * 3)
+        if rng.random() < 0.03 and pats:
+            # a line longer than the reader's 8 KiB buffer, with a pattern straddling the boundary
+            filler = "q"  # occurs in no pattern: the occurrences are those of p only
+            p = rng.choice(pats)
+            pre = 8192 - rng.randint(0, len(p.encode()))
+            lines.append(filler * (pre // max(1, len(filler.encode()))) + p + filler * 40 + p)
         inputs.append(dict(name="stdin" if ninputs == 0 else "in%d.txt" % k, lines=lines))
     via = "f" if (pats[0].startswith("-") or rng.random() < 0.4) else "p"
     flags = dict(n=rng.random() < 0.5, h=rng.random() < 0.4, color=rng.choice(["never", "always"]))
